@@ -183,7 +183,17 @@ class _Attributing:
         self._ctx.violation(key, what, witness)
 
 
+from vlib import stepmeter
+METER = None
+STEP_CAP = 3000000
+
+
 def run_case(ctx, case, keep=None):
+    global METER
+    if METER is None:
+        from vlib import env
+        METER = stepmeter.Meter(env.repo_path())
+        METER.start()
     ctx = _Attributing(ctx, case)
     from cpppo.history import files as hf, times as ht
     from cpppo.history import loader
@@ -228,11 +238,19 @@ def run_case(ctx, case, keep=None):
             while True:
                 calls += 1
                 before_state = ld.state
-                cur, ev = ld.load(limit=case['limit'])
+                try:
+                    (cur, ev), _steps = METER.measure(lambda: ld.load(limit=case['limit']), cap=STEP_CAP)
+                except stepmeter.StepBudgetExceeded:
+                    ctx.violation('replay-does-not-terminate', 'one load() call exceeded %d logical steps after %d delivered events for %d logged records (state %s)' % (
+                        STEP_CAP, len(delivered), len(E), ld.statename[ld.state]), wit)
+                    return
                 states.add(before_state)
                 states.add(ld.state)
                 for e in ev:
                     delivered.append((rounds, h, e['timestamp'].value, e['values']))
+                if len(delivered) > 3 * len(E) + 10:
+                    ctx.violation('record-delivered-twice', '%d events delivered for %d logged records (the replay keeps repeating records)' % (len(delivered), len(E)), dict(wit, delivered=delivered[:40]))
+                    return
                 if not ev or calls > 5000:
                     break
             # ---- on-time check for this round (clock did not move during the round)
